@@ -799,6 +799,11 @@ func famSelection(t *tgen) {
 			mname = t.pick("M0", "M1", "S", "D", "helper", "S", "D", "helper", name, "A", "Has")
 			if t.ch(0.4) {
 				recv = "\t// :recv s\n"
+				if t.ch(0.5) {
+					// in receiver form the members of the receiver type are what a name can collide with
+					mname = t.pick("A", "Has")
+					t.feat("method-named-like-receiver-member")
+				}
 			}
 			t.feat("method-name-clash-candidate")
 		}
